@@ -11,7 +11,7 @@ import random
 from .common import Verdict, cps, uncps, outcome_of_exception
 
 ID = "C18"
-GEN = []
+GEN = ["Cidr"]
 RULE = ("IPv4: every prefix length 0..32 x {boundary, random} network addresses; set equality of the matched set with "
         "the network range computed on integer ranges; IPv6: every prefix length 0..128 (thorough) / a spread (quick) x "
         "network addresses with zero hextets in every group position x probe addresses with zero runs / single bits in "
